@@ -74,6 +74,9 @@ def rand_scalar(rng, t=None, allow_null=True):
     if t in ("String", "Guid"):
         if t == "Guid" and not null and rng.random() < 0.7:
             return {"t": t, "v": "%08x-%04x-%04x-%04x-%012x" % (rng.getrandbits(32), rng.getrandbits(16), rng.getrandbits(16), rng.getrandbits(16), rng.getrandbits(48))}
+        if not null and rng.random() < 0.06:
+            # markup-like text that needs escaping although it holds neither '&' nor '<'
+            return {"t": t, "v": rng.choice(["a]]>b", "]]>", "limit[idx[0]]>5", "1 > 0", "-->", "?>", "]]", "x]>y"])}
         return {"t": t, "v": None if null else rand_text(rng)}
     if t == "DateTime":
         return {"t": t, "v": rand_datetime(rng), "tz": "utc"}
@@ -83,6 +86,8 @@ def rand_scalar(rng, t=None, allow_null=True):
     if t == "NodeId":
         it = rng.choice("isgb")
         ident = str(rng.choice([0, 5, 47, 2253])) if it == "i" else rand_text(rng, allow_empty=False)
+        if it != "i" and rng.random() < 0.15:
+            ident = rng.choice(["4711", "0042", "7", "000815", "12"])      # digits only, but not a numeric NodeId
         return {"t": t, "v": [rng.choice([0, 0, 1, 2, 7]), it, ident]}
     if t == "LocalizedText":
         return {"t": t, "text": None if rng.random() < 0.1 else rand_text(rng), "locale": rng.choice([None, "en", "en-US", "nb_NO", "de"])}
